@@ -217,3 +217,44 @@ Proof.
   - intros v [<-|Hv]; [now left|right]. apply filter_In in Hv. destruct Hv as (Hv & Hc). split; [exact Hv|lia].
 Qed.
 Print Assumptions commit_count_gives_majority.
+
+(* ------------------------------------------------------------------ *)
+(* what a leader builds (C07.built_from: the entries right after prev in its log, with the log's term at prev) is a
+   slice of the leader log in the sense of AbstractRaft.SAppendAccept *)
+(* ------------------------------------------------------------------ *)
+From DE.proofs Require Import C07 AR_election AR_logs.
+
+Lemma built_entries_are_slice L : contig 1 (pents L) ->
+  forall es prev, contig (N.of_nat prev + 1) es -> (forall e, In e es -> p_entry L (e_idx e) = Some e) ->
+  map fg es = firstn (length es) (skipn prev (map fg (pents L))) /\ (es <> [] -> (prev + length es <= length (pents L))%nat).
+Proof.
+  intros Hc. induction es as [|e es IH]; intros prev Hes Hin; [split; [reflexivity|congruence]|].
+  destruct Hes as (He & Hes).
+  assert (Hn : nth_error (pents L) prev = Some e).
+  { rewrite <- (lookup_nth _ 1 prev Hc). replace (1 + N.of_nat prev) with (e_idx e) by lia. apply Hin. now left. }
+  destruct (IH (S prev)) as (E & Hl).
+  { replace (N.of_nat (S prev) + 1) with (N.of_nat prev + 1 + 1) by lia. exact Hes. }
+  { intros x Hx. apply Hin. now right. }
+  assert (Hm : nth_error (map fg (pents L)) prev = Some (fg e)) by (rewrite nth_error_map, Hn; reflexivity).
+  split.
+  - cbn [map length]. rewrite (skipn_cons_nth _ _ _ Hm). cbn [firstn]. f_equal. exact E.
+  - intros _. cbn [length]. apply nth_error_Some_lt in Hn.
+    destruct es as [|x es']; [cbn [length]; lia|]. specialize (Hl ltac:(discriminate)). cbn [length] in *. lia.
+Qed.
+
+Theorem leader_request_is_slice L prev pterm es :
+  pb_idx L = 0 -> contig 1 (pents L) -> built_from L prev pterm es ->
+  map fg es = slice (map fg (pents L)) prev (N.of_nat (length es)) /\
+  prev + N.of_nat (length es) <= N.of_nat (length (pents L)) /\
+  term_at (map fg (pents L)) prev = pterm.
+Proof.
+  intros Hb Hc (Hes & Hin & Hp).
+  assert (Hm : p_prev_matches L prev pterm = true).
+  { unfold p_prev_matches. destruct Hp as [(-> & ->)|(H0 & Ht)]; [reflexivity|]. rewrite Ht, N.eqb_refl. apply orb_true_r. }
+  destruct (prev_matches_meets_abstract_guard L prev pterm Hb Hc Hm) as (Hle & Hta).
+  destruct (built_entries_are_slice L Hc es (N.to_nat prev)) as (E & Hl); [rewrite N2Nat.id; exact Hes|exact Hin|].
+  split; [|split; [|exact Hta]].
+  - rewrite slice_nat, Nat2N.id. exact E.
+  - destruct es as [|e es']; [cbn [length]; lia|]. specialize (Hl ltac:(discriminate)). lia.
+Qed.
+Print Assumptions leader_request_is_slice.
